@@ -100,7 +100,7 @@ Definition observe (P : pspec) (sm : sem) (lref : N -> list (N * list N)) (isig 
             end
         | OSleep => tag 8 (chk_sleep P es)
         | OWakeUp =>
-            tag 8 (chk_wake_reset ic) ++
+            tag 8 (chk_wake_reset ic) ++ tag 11 (chk_reset_first ic) ++
             (if o_dirty os then [] else tag 8 (reg_diff c1 (o_ref os))) ++
             (match lref 0 with
              | [] => []
@@ -147,4 +147,4 @@ Definition observe (P : pspec) (sm : sem) (lref : N -> list (N * list N)) (isig 
 Definition observe_new (P : pspec) (isig : list N) (bg0 : N) (ic : list icall) : ostate * list (N * clause) :=
   let '(c1, es) := ccall (ps_cp P) (por (ps_cp P)) ic in
   (mkO c1 bg0 None c1 false 0 false,
-   tag 5 (chk_c05 es) ++ tag 18 (chk_c18 P es) ++ tag 11 (chk_wake_reset ic) ++ tag 11 (chk_resets ic)).
+   tag 5 (chk_c05 es) ++ tag 18 (chk_c18 P es) ++ tag 11 (chk_reset_first ic) ++ tag 11 (chk_resets ic)).
